@@ -44,6 +44,7 @@ type seqCfg struct {
 }
 
 type seqStore struct {
+	gcCancel, gcBoundaries, gcBucket int64 // doGC: CancelGC at the gcCancel-th file boundary of the next pass (1 = before the first file; 0 = never)
 	cfg    seqCfg
 	hs     *store.HStore
 	cl     *gobeansdb.StorageClient
@@ -79,6 +80,13 @@ func seqHook(point string, args ...interface{}) {
 		}
 	case "bucket.open.bgcheck.done":
 		atomic.AddInt64(&s.bgdone, 1)
+	case "gc.prepared", "gc.file.done":
+		// the pass is cancelled at a chosen file boundary (CancelGC, as the admin command does)
+		if ca := atomic.LoadInt64(&s.gcCancel); ca > 0 {
+			if atomic.AddInt64(&s.gcBoundaries, 1) == ca {
+				s.hs.CancelGC(int(atomic.LoadInt64(&s.gcBucket)))
+			}
+		}
 	}
 }
 
@@ -535,7 +543,11 @@ func (s *seqStore) doGC(c *Ctx, bkt, begin, end, noGCDays int, merge, pretend bo
 	if pretend {
 		pr = 1
 	}
-	lhs := fmt.Sprintf("gc bkt=%d begin=%d end=%d nogcdays=%d merge=%d pretend=%d now=%d", bkt, begin, end, noGCDays, m, pr, now)
+	cancel := atomic.LoadInt64(&s.gcCancel)
+	defer atomic.StoreInt64(&s.gcCancel, 0)
+	atomic.StoreInt64(&s.gcBoundaries, 0)
+	atomic.StoreInt64(&s.gcBucket, int64(bkt))
+	lhs := fmt.Sprintf("gc bkt=%d begin=%d end=%d nogcdays=%d merge=%d pretend=%d now=%d cancel=%d", bkt, begin, end, noGCDays, m, pr, now, cancel)
 	if panicked != "" {
 		c.line("%s => PANIC", lhs)
 		return
@@ -558,7 +570,12 @@ func (s *seqStore) doGC(c *Ctx, bkt, begin, end, noGCDays int, merge, pretend bo
 	if st.Err != nil {
 		errs = "err"
 	}
-	c.line("%s => RANGE %d %d DONE %s before=%d released=%d sizebefore=%d sizereleased=%d", lhs, b, e, errs,
+	// a cancelled pass has looked at the files [b, stopped)
+	stopped := e + 1
+	if st.CancelFlag && st.Src <= e {
+		stopped = st.Src
+	}
+	c.line("%s => RANGE %d %d DONE %s stopped=%d before=%d released=%d sizebefore=%d sizereleased=%d", lhs, b, e, errs, stopped,
 		st.NumBefore, st.NumReleased, st.SizeBefore, st.SizeReleased)
 	c.line("files =>%s", s.filesLine())
 }
@@ -1087,6 +1104,10 @@ func seqCase(c *Ctx, r *RNG, id string, cfg seqCfg) {
 				}
 				c.count("op.restart")
 			}
+			if r.Chance(15) {
+				atomic.StoreInt64(&s.gcCancel, int64(1+r.Intn(3)))
+				c.count("op.gc.cancel")
+			}
 			s.doGC(c, bkt, begin, end, days, r.Chance(40), r.Chance(10))
 			c.count("op.gc")
 			if theHub.fatal == "" && r.Chance(45) {
@@ -1284,6 +1305,7 @@ func seqReplay(c *Ctx, base string) {
 				}
 				return 0
 			}
+			atomic.StoreInt64(&s.gcCancel, int64(get("cancel")))
 			s.doGC(c, get("bkt"), get("begin"), get("end"), get("nogcdays"), get("merge") == 1, get("pretend") == 1)
 		case "restart":
 			mode := 0
